@@ -84,8 +84,10 @@ func (c *CollectionChange) include(includeFunc FilterFunc) (newChange *Collectio
 		return c, true
 	}
 
-	oldInclude := includeFunc(c.Id, c.OldValue)
-	newInclude := includeFunc(c.Id, c.NewValue)
+	// an absent item (no old value: it is being added, no new value: it is being removed) is never
+	// part of the filtered collection, whatever the filter answers for nil
+	oldInclude := c.OldValue != nil && includeFunc(c.Id, c.OldValue)
+	newInclude := c.NewValue != nil && includeFunc(c.Id, c.NewValue)
 	if oldInclude == newInclude {
 		// the only time we want to skip sending the update is if both the old and new values are excluded
 		return c, newInclude
